@@ -75,7 +75,7 @@ def _cmp(ctx, clause, disc, got, exp, what, tol=1e-9):
 def check(case, ctx: Ctx):
     from pulser.sampler import sample
 
-    w = history.Walker(case, ctx, set()).run()
+    w = history.Walker(case, ctx, {"TARGETS"}).run()
     seq = w.seq
     if w.aborted:
         ctx.label("aborted_partial_effect(C09)")
